@@ -23,7 +23,7 @@ WIN = st.lists(st.tuples(st.integers(0, 63), st.integers(0, 63), st.sampled_from
 
 
 def strategy(tier):
-    return st.tuples(gen.history(max_ops=12, rejects=False), WIN, WIN).map(
+    return st.tuples(gen.tiered(tier, max_ops=12, rejects=False), WIN, WIN).map(
         lambda x: dict(x[0], win=[list(w) for w in x[1]], win2=[list(w) for w in x[2]]))
 
 
@@ -106,10 +106,15 @@ def run_case(case, rec):
                 continue
             Hm = M.slice(lo, hi)
             check_slice(rec, 'C06', H, Hm, G, M, d.nodes, ctx)
+            rec.check('C06.new_graph', H is not G, lambda: '%s returned the source graph itself' % ctx)
             ok, H1 = safe(dn.time_slice, G, a, b) if b is not None else safe(dn.time_slice, G, a)
             if rec.check('C06.call', ok, lambda: 'dn.%s raised %r' % (ctx, H1)):
                 ok, (o1, o2) = safe(lambda: (observe(H, d.nodes, M.probes()), observe(H1, d.nodes, M.probes())))
                 rec.check('C06.functional', ok and o1 == o2, lambda: 'dn.%s differs from the method in %r' % (ctx, diff(o1, o2) if ok else o1))
+            # the slice stays a usable graph: more calls behave as on any graph with that presence
+            ok, Hc = safe(G.time_slice, a, b) if b is not None else safe(G.time_slice, a)
+            if ok:
+                common.check_continuation(rec, 'C06.wf.continue', Hc, Hm, case, d.nodes, ctx=ctx, k=wi + len(case['ops']))
             # classification / non-triviality
             cut = miss = False
             for k in M.orient:
